@@ -126,6 +126,9 @@ pub fn common_labels(case: &Case, r: &RunResult, v: &mut Verdict) {
             v.label("source iterator next() is a (revocable) yield point");
         }
     }
+    if rs.iter().any(|run| run.workers.iter().any(|w| w.1 != run.chunk)) {
+        v.label("mixed chunk sizes in one run (a late worker got a grown chunk)");
+    }
     if r.sched.revoked > 0 {
         v.label("a revocable park was revoked (the running thread waited for something the parked thread holds)");
     }
@@ -209,6 +212,39 @@ pub fn prefix_values(case: &Case, term: &Term) -> Vec<V> {
     }
 }
 
+/// expected contents after collect_into (possibly a two-step history, see `elem::second_step`):
+/// previous contents ++ [extras] ++ output ++ [extras]
+pub fn collect_into_expected(case: &Case, term: &Term, out: &[V]) -> Vec<V> {
+    let mut e = prefix_values(case, term);
+    let (n, first) = match term {
+        Term::CollectInto { spare, .. } => second_step(*spare),
+        _ => (0, false),
+    };
+    let extras: Vec<V> = match item_kind(case) {
+        ItemKind::E => (0..n)
+            .map(|i| V {
+                uid: prefix_uid(1000 + i),
+                val: (i % 16) as u32,
+            })
+            .collect(),
+        ItemKind::Usize => (0..n)
+            .map(|i| V {
+                uid: (i % 16) as u64,
+                val: (i % 16) as u32,
+            })
+            .collect(),
+        ItemKind::Other => vec![],
+    };
+    if first {
+        e.extend(extras.iter().copied());
+    }
+    e.extend(out.iter().copied());
+    if !first {
+        e.extend(extras.iter().copied());
+    }
+    e
+}
+
 /// runs the case and performs the checks common to all value oracles; returns the pieces on success
 pub fn run_basic(case: &Case) -> Result<(RunResult, Model), Verdict> {
     let r = run_case(case);
@@ -262,6 +298,8 @@ pub struct PropDef {
     pub tiny: fn() -> Vec<Case>,
     /// scheduled mode over long inputs / large chunks with coarse hand-over: (generator, quick cases, thorough cases)
     pub long: Option<(GenCfg, u32, u32)>,
+    /// scheduled mode aimed at adaptive chunk growth (mixed chunk sizes in one run): (generator, quick cases, thorough cases)
+    pub growth: Option<(GenCfg, u32, u32)>,
 }
 
 pub fn no_dense(_thorough: bool, _seed: u64) -> Vec<Case> {
